@@ -228,4 +228,105 @@ def AQty.advSafe (q : AQty) : Bool :=
     | .text l => l.head?.any (fun t => t.kind == .word)
     | _ => true)
 
+/-! ### components -/
+
+/-- kinds allowed for the atoms of a name or alias: visible tokens that do not end the name
+    (`{`, the markers `@ # ~`) and no braces/parentheses.  Modifier characters and `|` are
+    allowed here and restricted by `AComp.wf` according to the extensions. -/
+def nameKind (k : TK) : Bool :=
+  k == .word || k == .int || k == .zeroInt || k == .punct || k == .dot || k == .colon || k == .star ||
+  k == .slash || k == .percent || k == .eq || k == .question || k == .plus || k == .minus || k == .and || k == .or
+
+/-- kinds allowed for the atoms of a note: everything visible but parentheses -/
+def noteKind (k : TK) : Bool :=
+  nameKind k || k == .openBrace || k == .closeBrace || k == .at || k == .hash || k == .tilde
+
+/-- the modifier characters `@ & ? + -` -/
+def modKind (k : TK) : Bool := k == .at || k == .and || k == .question || k == .plus || k == .minus
+
+def modChar (k : TK) : List Char :=
+  if k == .at then ['@'] else if k == .and then ['&'] else if k == .question then ['?']
+  else if k == .plus then ['+'] else ['-']
+
+/-- the flag set written by a list of modifier characters -/
+def modsOf (mods : List TK) : Modifiers :=
+  mods.foldl (fun m k => m.insert ((modifierFlag k).getD 0)) Modifiers.empty
+
+/-- an ingredient / cookware item written with braces -/
+structure AComp where
+  /-- modifier characters in written order -/
+  mods : List TK := []
+  /-- the name's leaf tokens -/
+  name : List Tok
+  alias : Option (List Tok) := none
+  qty : Option AQty := none
+  note : Option (List Tok) := none
+
+/-- blank material of a component: after the name, after `|`, after the alias, the quantity's,
+    inside empty braces -/
+structure CPad where
+  n1 : List Tok := []
+  a0 : List Tok := []
+  a1 : List Tok := []
+  q : QPad := {}
+  e : List Tok := []
+
+def CPad.ok (cs : CharSpec) (p : CPad) : Bool :=
+  padOK cs p.n1 && padOK cs p.a0 && padOK cs p.a1 && p.q.ok cs && padOK cs p.e
+
+def spellMods (mods : List TK) : List Tok := mods.map (fun k => tk k (modChar k))
+
+def spellAlias (a : Option (List Tok)) (p : CPad) : List Tok :=
+  match a with
+  | some a => [tk .or ['|']] ++ p.a0 ++ a ++ p.a1
+  | none => []
+
+def spellBraces (q : Option AQty) (p : CPad) : List Tok :=
+  [tk .openBrace ['{']] ++ (match q with | some q => spellQty q p.q | none => p.e) ++ [tk .closeBrace ['}']]
+
+def spellNote (n : Option (List Tok)) : List Tok :=
+  match n with
+  | some n => [tk .openParen ['(']] ++ n ++ [tk .closeParen [')']]
+  | none => []
+
+/-- `marker mods name [| alias] { quantity } [(note)]` -/
+def spellComp (marker : Tok) (c : AComp) (p : CPad) : List Tok :=
+  [marker] ++ spellMods c.mods ++ (c.name ++ p.n1 ++ spellAlias c.alias p) ++ spellBraces c.qty p ++ spellNote c.note
+
+def spellIngredient (c : AComp) (p : CPad) : List Tok := spellComp (tk .at ['@']) c p
+def spellCookware (c : AComp) (p : CPad) : List Tok := spellComp (tk .hash ['#']) c p
+
+def Ext.modifiers (e : Ext) : Bool := e.has Gen.EXT_COMPONENT_MODIFIERS
+def Ext.alias (e : Ext) : Bool := e.has Gen.EXT_COMPONENT_ALIAS
+
+/-- the side conditions of the component round trip (decidable; each clause has a
+    counter-example in Props/C01.lean):
+    * the name (alias, note) is a leaf of the allowed kinds: no `{`, no marker, no parentheses
+      (a note: no parentheses);
+    * modifiers are modifier characters, each at most once, and only written when the extension
+      is on (otherwise they would be part of the name);
+    * with MODIFIERS the name does not start with a modifier character (it would be read as one);
+    * with ALIAS the name and the alias contain no `|`; an alias is only written with ALIAS;
+    * the quantity is well formed, a range only with RANGE_VALUES, and with ADVANCED_UNITS it
+      is `advSafe`. -/
+def AComp.wf (cs : CharSpec) (e : Ext) (c : AComp) : Bool :=
+  leafOK cs nameKind c.name &&
+  c.mods.all modKind && decide c.mods.Nodup && (c.mods.isEmpty || e.modifiers) &&
+  (!e.modifiers || c.name.head?.all (fun t => !modKind t.kind)) &&
+  (!e.alias || c.name.all (fun t => t.kind != .or)) &&
+  (match c.alias with
+    | some a => e.alias && leafOK cs nameKind a && a.all (fun t => t.kind != .or)
+    | none => true) &&
+  (match c.note with
+    | some n => leafOK cs noteKind n
+    | none => true) &&
+  (match c.qty with
+    | some q => q.ok cs && (!q.val.isRange || e.has Gen.EXT_RANGE_VALUES) &&
+        (!e.has Gen.EXT_ADVANCED_UNITS || q.advSafe)
+    | none => true)
+
+/-- what may follow a component: without a note, not a `(` (it would open one) -/
+def restOK (c : AComp) (rest : List Tok) : Bool :=
+  c.note.isSome || rest.head?.all (fun t => t.kind != .openParen)
+
 end Cook
